@@ -40,7 +40,7 @@ def make_history(seed, i):
     calls = []
     fs = {}
     for k in range(rng.randrange(4, 10)):
-        kind = rng.choice(["modified", "modified", "notmodified", "syntax", "cancelled", "mapped-notmodified", "mapped-modified", "repeat", "mapped-external", "ext-same-url", "ext-same-url"])
+        kind = rng.choice(["modified", "modified", "notmodified", "syntax", "cancelled", "mapped-notmodified", "mapped-modified", "repeat", "mapped-external", "ext-same-url", "ext-same-url", "two-refs"])
         file = rng.choice(["dir/a.js", "dir/b.js", "c.js", "/abs/d.js"])
         if kind == "repeat" and calls:
             calls.append(dict(rng.choice(calls))); continue
@@ -56,6 +56,15 @@ def make_history(seed, i):
             code = "const v%d = [1,2].join('');\n//# sourceMappingURL=%s\n" % (k, omap_url("first-original-%d.ts" % k))
         elif kind == "mapped-modified":
             code = "function g%d(a,b){ return a + b.trim(); }\n//# sourceMappingURL=%s\n" % (k, omap_url("mapped-%d.ts" % k))
+        elif kind == "two-refs":
+            # two references on different tokens, the later one unusable: which one wins must not depend on the iteration order
+            # of the comment store (a fresh random order on every call) -- the call is made several times
+            code = ("function w%d(a,b){ return a + b; } //# sourceMappingURL=%s\nconst z%d = [1].join('');\n//# sourceMappingURL=%s\n"
+                    % (k, omap_url("two-refs-first-%d.ts" % k), k, rng.choice(["missing-%d.map" % k, "data:application/json;base64,@@@", "bad%d.map" % k])))
+            fs[os.path.join(os.path.dirname(file), "bad%d.map" % k)] = {"data": "{ not json"}
+            for _ in range(3):
+                calls.append({"code": code, "file": file})
+            continue
         elif kind == "ext-same-url":
             # files of different folders whose comment is the same relative URL: each folder has its own map
             code = "function s%d(a,b){ return a + b.trim(); }\n//# sourceMappingURL=shared.js.map\n" % k
